@@ -330,6 +330,7 @@ def obligations(tier):
         obs.append(ob_pitch_measures(3, False, None, 120))
         obs.append(ob_pitch_measures(2, True, None, 120))
         obs.append(ob_pitch_measures(3, True, 3, 200))
+        obs.append(ob_pitch_measures(4, False, 5, 300))
         obs.append(ob_variance_ieee(2, 40))  # bug hunting only at this budget: reported UNKNOWN, never success
         for thr in (0.5, 0.7, 1.0):
             obs.append(ob_pitch_errors(3, thr, 120))
@@ -350,7 +351,7 @@ def obligations(tier):
             obs.append(ob_rms(n, 300))
             obs.append(ob_znorm(max(n, 2), 600))
             for fz in (False, True):
-                for mw in (None, 3):
+                for mw in (None, 3, 4, 5):
                     obs.append(ob_pitch_measures(n, fz, mw, 600))
         for n in (1, 2, 3):
             obs.append(ob_variance_ieee(n, 1800))
